@@ -94,7 +94,8 @@ def gen_dst(rng, src, opts):
         if parent and dst.get(parent, {}).get("k") != "d": continue          # keeps the tree well-formed: no orphan entries
         if n["k"] == "d":
             if k < 60: dst[rel] = D()
-            elif k < 64 and opts.get("conflicts"): dst[rel] = F(b"a file where the source has a directory")     # type conflict
+            elif opts.get("conflicts") and (k < 66 or (k < 80 and not any(r.startswith(rel + "/") for r in src))):
+                dst[rel] = F(b"a file where the source has a directory")     # type conflict (more often for empty source directories)
             continue
         if n["k"] == "l":
             if k < 35: dst[rel] = L(n["text"])
@@ -107,7 +108,7 @@ def gen_dst(rng, src, opts):
         elif k < 70: dst[rel] = F(mutate_data(rng, n["data"]), n["mtime"] + off)                 # stale
         elif k < 80: dst[rel] = F(mutate_data(rng, n["data"]), n["mtime"])                       # stale, same mtime
         elif k < 90: dst[rel] = F(n["data"] + b"tail", n["mtime"] + off)
-        elif k < 95 and opts.get("symlinks"): dst[rel] = L(rng.pick(["nowhere", "@OUT@/sentinel.txt", "@SRC@/" + rel]))   # type conflict: link where a file belongs
+        elif k < 95 and opts.get("symlinks"): dst[rel] = L(rng.pick(["nowhere", "@OUT@/sentinel.txt", "@OUT@/big_sentinel.bin", "@OUT@/big_sentinel.bin", "@SRC@/" + rel]))   # type conflict: link where a file belongs
         elif k < 98 and opts.get("conflicts"):                                                                             # type conflict: directory where a file belongs
             dst[rel] = D()
             if rng.chance(1, 2): dst[rel + "/inner"] = F(b"inner")
@@ -262,6 +263,12 @@ def run(tier="quick", seed=1, work=None, replay=None, focus="C01", ncases=None):
             else:
                 flags, cfg, opts, env, excl = gen_flags(rng, focus, caps)
                 src = gen_src(rng, opts); dst = gen_dst(rng, src, opts)
+            leftovers = []
+            if focus == "C08" and rng.chance(1, 2):
+                # whatever earlier runs (or older versions) left behind: the dry run may not even tidy these up
+                for nm_ in rng.pick([[".sy-dir-cache.json"], [".sy-state.json"], [".sy-dir-cache.json", ".sy-state.json"], [".sy-checksums.db"]]):
+                    body = rng.pick([b'{"directories":{},"files":{}}', b'{"dir_entr', b"garbage\x00\x01", b"", b'{"version":1,"source":"/x","destination":"/y","completed_files":[]}'])
+                    leftovers.append((nm_, body)); rep.tag("c08.leftover." + nm_)
             if focus == "C08":
                 extra = rng.pick(C08_EXTRA)
                 if "--checksum" in extra:
@@ -273,8 +280,10 @@ def run(tier="quick", seed=1, work=None, replay=None, focus="C01", ncases=None):
                     if x.startswith("--"): rep.tag("c08.flag." + x)
             subst = {"@SRC@": src_root, "@OUT@": out_root}
             os.makedirs(out_root); open(os.path.join(out_root, "sentinel.txt"), "wb").write(b"sentinel")
-            os.utime(os.path.join(out_root, "sentinel.txt"), ns=(BASE_T * 10**9, BASE_T * 10**9))
+            open(os.path.join(out_root, "big_sentinel.bin"), "wb").write(bytes(range(256)) * 40)      # 10 KiB: above the hooked delta gate
+            for nm_ in ("sentinel.txt", "big_sentinel.bin"): os.utime(os.path.join(out_root, nm_), ns=(BASE_T * 10**9, BASE_T * 10**9))
             materialize(src_root, src, subst); materialize(dst_root, dst, subst)
+            for nm_, body in leftovers: open(os.path.join(dst_root, nm_), "wb").write(body)
             if focus == "C05":
                 parallel_twin(rep, contents, ci, seed, case_dir, src_root, dst_root, flags, cfg, env)
             res = one_case(rep, drv, contents, focus, ci, seed, case_dir, src_root, dst_root, out_root, flags, cfg, env, excl)
@@ -499,7 +508,11 @@ def dry_twin(rep, drv, contents, desc, case_dir, src_root, dst_root, out_root, f
         rep.oracle_fail("C08/dry-run-changed-state-dir", f"--dry-run created/changed files under HOME/XDG dirs: {ch[:4]}", desc)
     ev, bad = parse_json_lines(out)
     rel_of = lambda p: os.path.relpath(p, dst_root)
-    dry_events = sorted((e["type"][0], rel_of(e["path"])) for e in ev if e.get("type") in ("create", "update", "skip", "delete"))
+    back = {}
+    for r_ in set(pre_src) | set(pre_dst):
+        back.setdefault(lossy(r_), set()).add(r_)
+    unl = lambda r_: next(iter(back[r_])) if r_ in back and len(back[r_]) == 1 else r_
+    dry_events = sorted((e["type"][0], unl(rel_of(e["path"]))) for e in ev if e.get("type") in ("create", "update", "skip", "delete"))
     summ = next((e for e in ev if e.get("type") == "summary"), None)
     # K: the model's dry run
     mcfg = dict(cfg); mcfg["dry"] = 1
